@@ -822,6 +822,114 @@ func (g *genT) catalogueP(b baseT, all bool) {
 
 // ---------------------------------------------------------------------------------------------
 
+
+// sparse scalars: 2^e, 2^e +- 1, 3*2^e for e in {0,1,63,64,127,128,129,200,254,255}, reduced mod n, non-zero, distinct
+func sparseScalars() []*big.Int {
+	seen := map[string]bool{}
+	var out []*big.Int
+	for _, e := range []uint{0, 1, 63, 64, 127, 128, 129, 200, 254, 255} {
+		p2 := new(big.Int).Lsh(big.NewInt(1), e)
+		for _, v := range []*big.Int{p2, new(big.Int).Add(p2, big.NewInt(1)), new(big.Int).Sub(p2, big.NewInt(1)), new(big.Int).Mul(p2, big.NewInt(3))} {
+			w := new(big.Int).Mod(v, nOrd)
+			if w.Sign() != 0 && !seen[w.String()] {
+				seen[w.String()] = true
+				out = append(out, w)
+			}
+		}
+	}
+	return out
+}
+
+// 40 stream bytes from which randFieldElement derives the nonce k (1 <= k <= n-1): OS2IP = k - 1
+func rhoForNonce(k *big.Int) []byte { return fixed40(new(big.Int).Sub(k, big.NewInt(1))) }
+
+// crafted: a digest-level tuple (hash, r, s) for the key d with CHOSEN s and t = (r+s) mod n: r = t - s, and e solved from
+// e + x([s]G + [t]P) = r (mod n).  The sum is computed as [s + t d]G with ScalarBaseMult only (never with Add / ScalarMult,
+// the operations under test); when it is the point at infinity e is taken at random (the tuple must then be rejected).
+func (g *genT) crafted(d, s, t *big.Int, what string) {
+	k := mkKey("crafted", d)
+	r := new(big.Int).Sub(t, s)
+	r.Mod(r, nOrd)
+	if r.Sign() == 0 || s.Sign() == 0 || t.Sign() == 0 {
+		return
+	}
+	u := new(big.Int).Mul(t, d)
+	u.Add(u, s).Mod(u, nOrd)
+	var e *big.Int
+	expect := "acc"
+	if u.Sign() == 0 {
+		e, expect = new(big.Int).SetBytes(g.r.Bytes(32)), "rej"
+		what += " ([s]G = -[t]P: the sum is the point at infinity)"
+	} else {
+		x, _ := sm2.P256Sm2().ScalarBaseMult(u.Bytes())
+		e = new(big.Int).Sub(r, x)
+		e.Mod(e, nOrd)
+	}
+	hash := e.Bytes()
+	hash = append(make([]byte, 32-len(hash)), hash...)
+	g.H(k.X, k.Y, hash, r, s, expect, "crafted "+what)
+}
+
+// special relations between the two summands of [s]G + [t]P, tiny / extreme s and t, sparse s, t, d
+func (g *genT) specialVerify(thorough bool) {
+	n1 := new(big.Int).Sub(nOrd, big.NewInt(1))
+	inv := func(x *big.Int) *big.Int { return new(big.Int).ModInverse(x, nOrd) }
+	keys := []*big.Int{big.NewInt(1), big.NewInt(2), new(big.Int).Sub(nOrd, big.NewInt(2)), g.randBelow(n1, 40), g.randBelow(n1, 40), g.randBelow(n1, 40)}
+	for _, d := range keys {
+		s := g.randBelow(n1, 40)
+		// [s]G = [t]P  <=>  s = t d: the verifier adds two EQUAL points (valid signature, made with nonce k = 2s)
+		g.crafted(d, s, mulModN(s, inv(d)), "[s]G = [t]P (doubling inside the verifier)")
+		// [s]G = -[t]P: the sum is infinity
+		g.crafted(d, s, mulModN(new(big.Int).Sub(nOrd, s), inv(d)), "[s]G = -[t]P")
+		for _, sv := range []*big.Int{big.NewInt(1), big.NewInt(2), n1, new(big.Int).Sub(nOrd, big.NewInt(2))} {
+			g.crafted(d, sv, g.randBelow(n1, 40), "s = "+zs(sv))
+			g.crafted(d, g.randBelow(n1, 40), sv, "t = "+zs(sv))
+		}
+		g.crafted(d, big.NewInt(1), big.NewInt(2), "s = 1, t = 2")
+	}
+	sp := sparseScalars()
+	for i, v := range sp {
+		if !thorough && (i+g.rotW)%2 == 0 { // quick: every other sparse value, which ones depends on the seed
+			continue
+		}
+		d := g.randBelow(n1, 40)
+		g.crafted(d, g.randBelow(n1, 40), v, "sparse t = "+zs(v))
+		g.crafted(d, v, g.randBelow(n1, 40), "sparse s = "+zs(v))
+		g.crafted(v, g.randBelow(n1, 40), g.randBelow(n1, 40), "sparse d = "+zs(v))
+		// signing with a sparse nonce, and with a sparse private key
+		msg, wm := g.msgNormal()
+		g.S(mkKey("d-rnd", d), nil, msg, rhoForNonce(v), "sparse nonce k = "+zs(v)+" | "+wm)
+		if v.Cmp(n1) < 0 {
+			rho, wr := g.rhoNormal()
+			g.S(mkKey("d-sparse", v), nil, msg, rho, "sparse key d = "+zs(v)+" | "+wm+" "+wr)
+		}
+	}
+}
+
+func mulModN(a, b *big.Int) *big.Int { r := new(big.Int).Mul(a, b); return r.Mod(r, nOrd) }
+
+// every residue mod 64 of the message length and of the ID length (the SM3 inputs ZA-input = 194 + |ID| and e-input =
+// 32 + |M| then run through every padding position), in the S and D legs; start and pairing depend on the seed
+func (g *genT) residueSweep() {
+	offM, offU, offU2 := g.r.Intn(64), g.r.Intn(64), g.r.Intn(64)
+	for i := 0; i < 64; i++ {
+		k := mkKey("d-rnd", g.randBelow(new(big.Int).Sub(nOrd, big.NewInt(1)), 40))
+		mlen := 64*g.r.Intn(3) + (i+offM)%64
+		ulen := 64*g.r.Intn(3) + (i+offU)%64
+		if ulen == 0 {
+			ulen = 64
+		}
+		msg, uid := g.r.Bytes(mlen), g.r.Bytes(ulen)
+		g.D(k.X, k.Y, uid, msg, fmt.Sprintf("residues |M|=%d |ID|=%d", mlen, ulen))
+		ulen2 := 64*g.r.Intn(2) + (i+offU2)%64
+		if ulen2 == 0 {
+			ulen2 = 128
+		}
+		rho, wr := g.rhoNormal()
+		g.S(k, g.r.Bytes(ulen2), g.r.Bytes(64*g.r.Intn(2)+(63-i+offM)%64), rho, fmt.Sprintf("residues |ID|=%d %s", ulen2, wr))
+	}
+}
+
 func hs(b []byte) string {
 	if len(b) == 0 {
 		return "-"
@@ -1086,6 +1194,10 @@ func gen(seed uint64, tier string, o *hx.Out) {
 
 	// ---- histories: Sign / Verify / Sm3Digest sequences on reused, overwritten buffers ----
 	g.histories(thorough)
+
+	// ---- crafted tuples with special relations / sparse scalars; all residues mod 64 of |M| and |ID| ----
+	g.specialVerify(thorough)
+	g.residueSweep()
 
 	// ---- concurrent leg: several signers at once, each on its own stream ----
 	nConc := 2
